@@ -1146,6 +1146,81 @@ pub fn spaces(tier: Tier) -> Vec<Space> {
             acc.nontrivial_structural += 1;
         }
     }));
+    // 4. render - mutate - render: the rendering must describe the script as it is NOW. One Script object is rendered
+    // (nothing / plain / extended / both), changed through a public mutator, and rendered again: both renderings must be
+    // those of a freshly parsed copy of the object's current bytes, and the plain one must parse back to those bytes
+    {
+        let bases: Arc<Vec<Vec<u8>>> = Arc::new(vec![
+            vec![0x51, 0x63, 0xab, 0x76, 0x67, 0xab, 0x75, 0x68, 0xac],
+            vec![0x51, 0x63, 0x51, 0x64, 0x52, 0xab, 0x68, 0x67, 0x53, 0x68, 0xac],
+            vec![0xab, 0x51, 0x63, 0xab, 0x68, 0xab, 0xac],
+            vec![0x76, 0xa9, 0x02, 0xab, 0xab, 0x88, 0xac],
+            vec![0x76, 0xab, 0xac],
+            vec![0x51, 0x63, 0x52, 0x67, 0x68],
+            vec![],
+        ]);
+        const MUTATORS: [&str; 6] = ["remove_codeseparators", "push(OP_1)", "push(OP_CODESEPARATOR)", "push(data 2a2b)", "push_array([OP_2, data ab])", "remove_codeseparators twice"];
+        let nb = bases.len() as u64;
+        v.push(Space::new("render-mutate-render", nb * 4 * MUTATORS.len() as u64 * MUTATORS.len() as u64, move |case, acc| {
+            let nm = MUTATORS.len() as u64;
+            let c = coords(case.idx, &[nb, 4, nm, nm]);
+            let base = &bases[c[0] as usize];
+            acc.evaluations += 1;
+            acc.transitions += 8;
+            acc.traces += 1;
+            let input = || json!({"script_hex": hx(base), "rendered_before": (["nothing", "plain", "extended", "both"][c[1] as usize]), "mutators": [MUTATORS[c[2] as usize], MUTATORS[c[3] as usize]]});
+            let apply = |s: &mut Script, m: u64| match m {
+                0 => s.remove_codeseparators(),
+                1 => s.push(bsv::ScriptBit::OpCode(bsv::OpCodes::OP_1)),
+                2 => s.push(bsv::ScriptBit::OpCode(bsv::OpCodes::OP_CODESEPARATOR)),
+                3 => s.push(bsv::ScriptBit::Push(vec![0x2a, 0x2b])),
+                4 => s.push_array(&[bsv::ScriptBit::OpCode(bsv::OpCodes::OP_2), bsv::ScriptBit::Push(vec![0xab])]),
+                _ => {
+                    s.remove_codeseparators();
+                    s.remove_codeseparators();
+                }
+            };
+            let r = guard(|| {
+                let mut s = Script::from_bytes(base).map_err(|e| e.to_string())?;
+                let render = |s: &Script, mode: u64| {
+                    if mode & 1 == 1 {
+                        let _ = s.to_asm_string();
+                    }
+                    if mode & 2 == 2 {
+                        let _ = s.to_extended_asm_string();
+                    }
+                };
+                render(&s, c[1]);
+                apply(&mut s, c[2]);
+                render(&s, c[1]);
+                apply(&mut s, c[3]);
+                let now = s.to_bytes();
+                let fresh = Script::from_bytes(&now).map_err(|e| e.to_string())?;
+                Ok::<_, String>((now, s.to_asm_string(), s.to_extended_asm_string(), fresh.to_asm_string(), fresh.to_extended_asm_string()))
+            });
+            match r {
+                Err(p) => acc.violate(format!("C17/render-mutate-render/kind=panic@{}", panic_site(&p)), case.idx, case.json(input()), p),
+                Ok(Err(_)) => {
+                    acc.bump("render_mutate_render_premise_rejected", 1);
+                    acc.outcome(b"rmr-reject");
+                }
+                Ok(Ok((now, plain, ext, fplain, fext))) => {
+                    acc.nontrivial_structural += 1;
+                    acc.states_structural += 1;
+                    acc.outcome(&[b'r', now.len() as u8]);
+                    if plain != fplain {
+                        acc.violate("C17/render-mutate-render/kind=plain-rendering-is-not-that-of-the-current-script", case.idx, case.json(input()), format!("object renders {:?}, a fresh parse of its bytes {} renders {:?}", trunc_s(&plain), hx(&now), trunc_s(&fplain)));
+                    } else if ext != fext {
+                        acc.violate("C17/render-mutate-render/kind=extended-rendering-is-not-that-of-the-current-script", case.idx, case.json(input()), format!("object renders {:?}, a fresh parse of its bytes {} renders {:?}", trunc_s(&ext), hx(&now), trunc_s(&fext)));
+                    } else if let P::Ok(b2) = parse(&plain) {
+                        if b2 != now {
+                            acc.violate("C17/render-mutate-render/kind=rendering-parses-to-other-bytes", case.idx, case.json(input()), format!("{:?} parses to {}, the script is {}", trunc_s(&plain), hx(&b2), hx(&now)));
+                        }
+                    }
+                }
+            }
+        }));
+    }
     v
 }
 
